@@ -1,0 +1,60 @@
+//go:build verif
+
+// Contracts for the verification machinery in /verif (comment-only; never compiled into a binary).
+// Property C08: load-aware placement keeps nodes under threshold; load estimates never drift (the pod estimate).
+
+package estimator
+
+//@ uses apis/extension
+
+// Estimate of one resource from the exact request / limit quantities: based on the larger of the two; nothing requested ->
+// the default request for cpu / memory (incl. the batch names), 0 otherwise; else units * factor% rounded half away from zero
+// (math.Round; milli-units for cpu), capped by the limit when there is one.
+//@ spec func scaled(units int, factor int) int = int(round(real(units) * real(factor) / 100))
+//@ spec func capAt(est int, limit int) int = (limit > 0 && est > limit) ? limit : est
+//@ spec func pickQ(req resource.Quantity, lim resource.Quantity) resource.Quantity = lim.Cmp(req) > 0 ? lim : req
+//@ spec func dfltEst(n corev1.ResourceName) int = (n == corev1.ResourceCPU || n == extension.BatchCPU) ? DefaultMilliCPURequest : ((n == corev1.ResourceMemory || n == extension.BatchMemory) ? DefaultMemoryRequest : 0)
+//@ spec func estOf(req resource.Quantity, lim resource.Quantity, n corev1.ResourceName, factor int) int = pickQ(req, lim).IsZero() ? dfltEst(n) : (n == corev1.ResourceCPU ? capAt(scaled(pickQ(req, lim).MilliValue(), factor), lim.MilliValue()) : capAt(scaled(pickQ(req, lim).Value(), factor), lim.Value()))
+// (kept uninterpreted in VCs - definition supplied as an axiom triggered on applications - so that callers reason by congruence)
+//@ opaque estOf
+
+//@ func estimatedUsedByResource [C08]
+//@   ensures #fn: result == estOf(val(requests, resourceName), val(limits, resourceName), resourceName, scalingFactor)
+// the same, case by case
+//@   ensures #default: pickQ(val(requests, resourceName), val(limits, resourceName)).IsZero() ==> result == dfltEst(resourceName)
+//@   ensures #cpu: !pickQ(val(requests, resourceName), val(limits, resourceName)).IsZero() && resourceName == corev1.ResourceCPU ==> result == capAt(scaled(pickQ(val(requests, resourceName), val(limits, resourceName)).MilliValue(), scalingFactor), val(limits, resourceName).MilliValue())
+//@   ensures #other: !pickQ(val(requests, resourceName), val(limits, resourceName)).IsZero() && resourceName != corev1.ResourceCPU ==> result == capAt(scaled(pickQ(val(requests, resourceName), val(limits, resourceName)).Value(), scalingFactor), val(limits, resourceName).Value())
+//@   modifies nothing
+
+// the resource a pod of priority class pc consumes when the factor is given for n (batch / mid pods use the extended names)
+//@ spec func tr(pc extension.PriorityClass, n corev1.ResourceName) corev1.ResourceName = (pc == extension.PriorityProd || pc == extension.PriorityNone) ? n : extension.ResourceNameMap[pc][n]
+//@ spec func podEst(pod *corev1.Pod, n corev1.ResourceName, factor int) int = estOf(g_podReq(pod, false, tr(extension.podPrioDefault(pod), n)), g_podLim(pod, tr(extension.podPrioDefault(pod), n)), tr(extension.podPrioDefault(pod), n), factor)
+
+// One entry per scaling factor: the estimate of the (priority-translated) resource from the pod's total requests / limits.
+//@ func estimatedPodUsed [C08]
+//@   requires extension.rangesOK() && extension.DefaultPriorityClass == extension.PriorityNone
+//@   ensures #fresh: result != nil && fresh(result)
+//@   ensures #dom: forall n corev1.ResourceName :: has(result, n) <==> has(scalingFactors, n)
+//@   ensures #val: forall n corev1.ResourceName :: has(scalingFactors, n) ==> result[n] == podEst(pod, n, scalingFactors[n])
+//@   modifies nothing
+//@   loop 1 invariant #res: estimatedUsed != nil && fresh(estimatedUsed)
+//@   loop 1 invariant #dom: forall n corev1.ResourceName :: has(estimatedUsed, n) <==> ($seen[n] && has(scalingFactors, n))
+//@   loop 1 invariant #val: forall n corev1.ResourceName :: has(estimatedUsed, n) ==> estimatedUsed[n] == podEst(pod, n, scalingFactors[n])
+
+// Effective scaling factors: the configured ones; when customisation is allowed and the pod's annotation names at least one
+// factor, the pod's factors take precedence and the configured ones fill the gaps.
+//@ spec func custom(e *DefaultEstimator, pod *corev1.Pod) bool = e.allowCustomize && (exists m corev1.ResourceName :: g_customFactorHas(pod, m))
+//@ spec func effHas(e *DefaultEstimator, pod *corev1.Pod, n corev1.ResourceName) bool = has(e.scalingFactors, n) || (custom(e, pod) && g_customFactorHas(pod, n))
+//@ spec func effFactor(e *DefaultEstimator, pod *corev1.Pod, n corev1.ResourceName) int = (custom(e, pod) && g_customFactorHas(pod, n)) ? g_customFactor(pod, n) : e.scalingFactors[n]
+
+// The pod estimate: never fails; a fresh map with exactly one entry per effective factor, each the estimate podEst above.
+//@ func (*DefaultEstimator).EstimatePod [C08]
+//@   requires e != nil && extension.rangesOK() && extension.DefaultPriorityClass == extension.PriorityNone
+//@   ensures #noerr: result1 == nil
+//@   ensures #fresh: result0 != nil && fresh(result0)
+//@   ensures #dom: forall n corev1.ResourceName :: has(result0, n) <==> effHas(e, pod, n)
+//@   ensures #val: forall n corev1.ResourceName :: effHas(e, pod, n) ==> result0[n] == podEst(pod, n, effFactor(e, pod, n))
+//@   modifies nothing
+//@   loop 1 invariant #map: factors != nil && fresh(factors) && factors != e.scalingFactors && custom(e, pod)
+//@   loop 1 invariant #dom: forall n corev1.ResourceName :: has(factors, n) <==> (g_customFactorHas(pod, n) || ($seen[n] && has(e.scalingFactors, n)))
+//@   loop 1 invariant #val: forall n corev1.ResourceName :: has(factors, n) ==> factors[n] == (g_customFactorHas(pod, n) ? g_customFactor(pod, n) : e.scalingFactors[n])
